@@ -308,6 +308,8 @@ def _run_fuzz(prop, leg, tier, seed, runs, t0):
             os.remove(out)
         except OSError:
             pass
+        import shutil
+        shutil.rmtree(out + ".corpus", ignore_errors=True)
     if r.returncode not in (0,) and not d.get("errors") and not d.get("failures"):
         # libFuzzer reports an uncaught exception of the target as a crash; evaluate() catches everything, so this is a harness error
         d.setdefault("errors", []).append("fuzz driver exit %s: %s" % (r.returncode, (r.stderr or "")[-800:]))
